@@ -203,6 +203,35 @@ theorem accept_sound (cfg : Cfg) (st st' : St) (c : Cred) (X : Str) (m : Method)
       ∃ st0 : St, (∀ k ∈ st.jtiSeen, k ∈ st0.jtiSeen) ∧ st0.now = st.now ∧ CredentialOf cfg st0 c X m :=
   accept_sound_loop cfg c cfg.methods st st' X m h
 
+/-- **whoever the endpoint acts for presented that client's credential.** What the endpoint-specific
+    code is handed by `parse_request` as an authenticated request of client X — whatever `client_id`
+    the body claims — is a request that carried a credential of X, by a method the endpoint and X's
+    registration allow -/
+theorem acted_for_means_credential (cfg : Cfg) (st : St) (c : Cred) (X : Str) (body : Option Str)
+    (h : treatedAs cfg (verifyClient cfg st c).2 body = some (some X, true)) :
+    ∃ m, m ∈ cfg.methods ∧ ∃ r, findClient cfg X = some r ∧ secretValid r st.now = true ∧
+      (∀ al, r.allowed = some al → m ∈ al) ∧
+      ∃ st0 : St, (∀ k ∈ st.jtiSeen, k ∈ st0.jtiSeen) ∧ st0.now = st.now ∧ CredentialOf cfg st0 c X m := by
+  cases ho : (verifyClient cfg st c).2 with
+  | accepted id m =>
+    rw [ho] at h
+    simp only [treatedAs, Option.some.injEq, Prod.mk.injEq] at h
+    obtain ⟨hid, _⟩ := h
+    cases hid
+    exact ⟨m, accept_sound cfg st (verifyClient cfg st c).1 c X m (by rw [← ho])⟩
+  | nothing =>
+    rw [ho] at h
+    simp only [treatedAs] at h
+    split at h <;> simp at h
+  | authnError => rw [ho] at h; simp [treatedAs] at h
+  | unknownClient => rw [ho] at h; simp [treatedAs] at h
+  | invalidClient => rw [ho] at h; simp [treatedAs] at h
+
+/-- the body's `client_id` never decides who an authenticated request belongs to -/
+theorem body_claim_is_ignored (cfg : Cfg) (o : Outcome) (b1 b2 : Option Str) (X : Option Str)
+    (h : treatedAs cfg o b1 = some (X, true)) : treatedAs cfg o b2 = some (X, true) := by
+  cases o <;> simp_all [treatedAs]
+
 /-- an accepted JWT assertion with a jti leaves that (iss, jti) in the replay cache -/
 theorem accepted_jti_recorded (cfg : Cfg) (c : Cred) (ms : List Method) (st st' : St) (X : Str) (m : Method)
     (j : Jwt) (t : Str) (hj : c.assertion = some j) (ht : j.jti = some t)
